@@ -166,6 +166,7 @@ func RegWithTreatedAsLevel(treatAs Level) RegOpt {
 // line to stderr device just like ErrorLevel.
 func RegWithPrintToErrorDevice(b ...bool) RegOpt {
 	return func(pack *regPack) {
+		pack.printOutToErrorDevice = true // RegWithPrintToErrorDevice() asks for it
 		for _, v := range b {
 			pack.printOutToErrorDevice = v
 		}
